@@ -274,7 +274,14 @@ func posClass(path []string) string {
 // marker: "col DESC" is documented index syntax.
 var c15Markers = []string{`m1'm`, `m2"m`, `m3;m`, `m4)m`, `m5(m`, `m6--m`, `m7$$m`, `m8\m`, `m9.m`}
 
-var c15Forms = []string{"whole", "suffix", "prefix"}
+var c15Forms = []string{"whole", "suffix", "prefix", "after-space", "after-direction"}
+
+// c15SpaceForm: positions with the documented "<column> ASC|DESC" syntax (and their neighbour, the unique
+// list) additionally get "<column> <marker>": whatever follows the space must be a direction, nothing else.
+func c15SpaceForm(path []string) bool {
+	pc := posClass(path)
+	return pc == "table.index[][]" || pc == "table.unique[][]"
+}
 
 func c15Variant(val string, marker, form int) string {
 	m := c15Markers[marker]
@@ -283,6 +290,12 @@ func c15Variant(val string, marker, form int) string {
 		return val + m
 	case 2:
 		return m + val
+	case 3:
+		col, _, _ := strings.Cut(val, " ")
+		return col + " " + m
+	case 4:
+		col, _, _ := strings.Cut(val, " ")
+		return col + " desc " + m
 	}
 	return m
 }
